@@ -70,7 +70,7 @@ PROPS = {
                 "from the same histograms. Distinct = pool signature (bit length, #keys, total/10 per histogram); non-trivial = "
                 "run with >=3 steps touching >=2 histograms or >=1 refusal/biased draw.",
         "probes": ["C18.RandomState(None)_served", "C18.same_histogram_twice", "C18.marginalise_untouched_qubits", "C18.identity_term_grouped",
-                   "C18.histograms_in_other_order_than_groups", "C18.n_multiple_of_chunk_size"],
+                   "C18.histograms_in_other_order_than_groups", "C18.n_multiple_of_chunk_size", "C18.expected_outcomes_listed_in_descending_order"],
         "components_real": ["Histogram, aggregate_histograms, filter_hist", "post_select, strip_post_selection, split_frequency_dict, "
                             "split_frequency_dict_for_last_n_digits", "get_resampled_frequencies + scipy.stats.rv_discrete",
                             "group_qwc, map_measurements_qwc, exp_value_from_measurement_bases + openfermion clique cover"],
